@@ -59,6 +59,7 @@ def gen_case(rng, params, idx):
         if any(p.get("opt") for p in pos) and kind in ("next", "fnext"):
             kind = "leaf"
         methods.append({"mid": i, "pos": pos, "kw": kws, "prio": rng.choice([0, 0, 1]), "kind": kind})
+    gen.strict_first(rng, methods, 0.15)
     spec = {"hier": hier, "methods": methods, "npos": npos}
     vals = gen.values_for(hier, builtin=False) + gen.WIDE_VALUES
     cg = gen.CallGen(spec, vals)
